@@ -33,6 +33,7 @@ from __future__ import print_function
 import logging
 import socket
 import sys
+import threading
 import traceback
 
 try:
@@ -675,8 +676,11 @@ class PooledJSONRPCServer(socketserver.ThreadingMixIn, SimpleJSONRPCServer):
         # Store the thread pool
         self.__request_pool = thread_pool
 
-        # Flag indicating if the serve_forever() loop is running
+        # Flags indicating if the serve_forever() loop is running and if the
+        # server has been closed
         self.__serving = False
+        self.__closed = False
+        self.__state_lock = threading.Lock()
 
         # Prepare the server
         SimpleJSONRPCServer.__init__(
@@ -702,7 +706,13 @@ class PooledJSONRPCServer(socketserver.ThreadingMixIn, SimpleJSONRPCServer):
         """
         Handle requests until shutdown() or server_close() is called
         """
-        self.__serving = True
+        with self.__state_lock:
+            if self.__closed:
+                # server_close() has been called before the loop could start
+                return
+
+            self.__serving = True
+
         try:
             SimpleJSONRPCServer.serve_forever(self, poll_interval)
         finally:
@@ -712,7 +722,11 @@ class PooledJSONRPCServer(socketserver.ThreadingMixIn, SimpleJSONRPCServer):
         """
         Clean up the server
         """
-        if self.__serving:
+        with self.__state_lock:
+            self.__closed = True
+            serving = self.__serving
+
+        if serving:
             # Stop the serve_forever() loop: shutdown() must only be called
             # while it is running, as it would block forever otherwise
             SimpleJSONRPCServer.shutdown(self)
